@@ -26,7 +26,7 @@ import (
 func init() {
 	register(&Check{ID: "C16", Level: "fault_enumeration",
 		Rule: "exchanges through upstream.NewUpstream(\"udp://127.0.0.1:p\" | \"127.0.0.1:p\" | dial_addr with an unresolvable / dead URL host) against a fake server on one port; every exchange has a unique random question (name, type, class) and one script cell " +
-			"{udp: tc|ok|silent} x {tcp: ok|refuse|silent|garbage|close|slow (reply 700 ms after a 250-500 ms deadline)|okfin (reply, then FIN: later TCP legs meet a dead pooled connection)} (all 21 cells, equally often), a series of 70 failing TCP legs followed by a healthy one, one question asked three times whose UDP replies are truncated / complete / truncated (TCP, no TCP, TCP again), 12-32 concurrent callers, context deadlines 400-1000 ms against silent legs; plus a sequential series of TC=0 exchanges on a fresh upstream " +
+			"{udp: tc|ok|silent} x {tcp: ok|refuse|silent|garbage|close|slow (reply 700 ms after a 250-500 ms deadline)|okfin (reply, then FIN: later TCP legs meet a dead pooled connection)} (all 21 cells, equally often), a series of 70 failing TCP legs followed by a healthy one, one question asked three times whose UDP replies are truncated / complete / truncated (TCP, no TCP, TCP again), complete UDP replies whose question section is lower-cased or missing (no TCP), 12-32 concurrent callers, context deadlines 400-1000 ms against silent legs; plus a sequential series of TC=0 exchanges on a fresh upstream " +
 			"after which the server must have accepted no TCP connection at all. One evaluation = one exchange. Distinct non-trivial cases = distinct tuples (address form, udp script, tcp script, qtype, qclass, outcome class, number of TCP arrivals of the question)",
 		Run: runC16})
 }
@@ -106,6 +106,10 @@ func c16NewEnv(group string) (*c16Env, error) {
 			return scripted.Action{Tag: "udp-ok-4096", Leg: scripted.LegUDP, PadTo: 4096}
 		case "ok4095":
 			return scripted.Action{Tag: "udp-ok-4095", Leg: scripted.LegUDP, PadTo: 4095}
+		case "oklower": // complete reply whose question section spells the name in lower case (the query used mixed case)
+			return scripted.Action{Tag: "udp-ok-lowercased-question", Leg: scripted.LegUDP, LowerQ: true}
+		case "okbare": // complete (TC=0) reply that is nothing but a header: no question echoed (some servers answer errors that way)
+			return scripted.Action{Tag: "udp-ok-bare", NoQuestion: true, Leg: scripted.LegUDP}
 		case "tcbare": // truncated, and nothing but a header (no question echoed)
 			return scripted.Action{Tag: "udp-tc-bare", TC: true, NoQuestion: true, Leg: scripted.LegUDP}
 		case "okslow": // a complete reply, but only after 2.6 s
@@ -537,6 +541,7 @@ func runC16(c *Ctx) {
 	c16NoTCP(c)
 	c16AfterFailures(c)
 	c16Repeat(c)
+	c16Echo(c)
 	c16Slow(c)
 	c.Ev.Set("race_reports_logged_not_judged_here", upRaceReports(c))
 }
@@ -763,4 +768,50 @@ func c16Repeat(c *Ctx) {
 		}
 	}
 	c.Ev.Sample(map[string]any{"part": "repeat", "questions": n, "udp_replies": "TC, complete, TC"})
+}
+
+
+// c16Echo: the UDP reply decides by its TC flag alone. A complete reply whose question section is
+// not a verbatim copy of the query's - the server lower-cased a mixed-case name, or sent a bare
+// header without any question - is still a reply without TC: it is returned as received and the
+// TCP side sees nothing.
+func c16Echo(c *Ctx) {
+	e, err := c16NewEnv("listen")
+	if err != nil {
+		c.Inconclusive("C16 setup: " + err.Error())
+		return
+	}
+	defer e.close()
+	n := c.N(16, 120)
+	for i := 0; i < n && !c.Seen("tcp-attempt-without-tc:question-not-echoed-verbatim"); i++ {
+		r := gen.New(c.Seed, "c16-echo", i)
+		kind := []string{"oklower", "okbare"}[i%2]
+		ex := c16Gen(r, 950000+i, kind, "ok")
+		ex.Form, ex.DeadMs = gen.Pick(r, []string{"udp://", "bare"}), 2500
+		// mixed case spelling (0x20 style); the scripts are keyed by the name as the server reads it
+		b := []byte(ex.Name)
+		for k := range b {
+			if 'a' <= b[k] && b[k] <= 'z' && r.Bool() {
+				b[k] -= 'a' - 'A'
+			}
+		}
+		ex.Name = string(b)
+		c16Do(e, ex)
+		c.Ev.Eval(1)
+		time.Sleep(3 * time.Millisecond)
+		lg := c16Collect(e)
+		nTCP := len(lg.tcpQ[ex.Name])
+		w := c16Witness{Exchange: ex, Rule: "echo", TCPSeen: lg.tcpQ[ex.Name], UDPSent: lg.udpR[ex.Name]}
+		switch {
+		case len(lg.udpR[ex.Name]) == 0:
+			c.Inconclusive("echo: the UDP query never arrived")
+		case nTCP > 0 || (ex.Returned && ex.Leg == "T"):
+			c.Violation("tcp-attempt-without-tc:question-not-echoed-verbatim", fmt.Sprintf("exchange %q: the UDP reply (%s) had TC=0, yet the question arrived over TCP %d time(s) and the caller got the reply of leg %q", ex.Name, kind, nTCP, ex.Leg), w)
+		case !ex.Returned:
+			c.Violation("udp-reply-not-returned:question-not-echoed-verbatim", fmt.Sprintf("exchange %q: the server sent a complete UDP reply (%s, TC=0) but the exchange failed: %s", ex.Name, kind, ex.Err), w)
+		default:
+			c.Ev.Distinct("echo", kind, ex.Form)
+			c.Ev.Count("echo_replies_returned_as_received", 1)
+		}
+	}
 }
